@@ -117,10 +117,12 @@ func buildIDLModel(p *Prog) (*idlModel, string) {
 	}
 	for _, f := range p.FuncsOf(pkgIDL) {
 		if f.Parent() == nil && f.Signature.Recv() == nil && f.Object() != nil && f.Object().Exported() {
-			for _, b := range f.Blocks {
+			// (the cursor may be made by a constructor helper: `newParser(input)`; the readers stay calls)
+			v := p.Inlined(f, func(c *ssa.Function) bool { return m.a.isCursorMethod(c) })
+			for _, b := range v.Blocks {
 				for _, in := range b.Instrs {
 					if al, ok := in.(*ssa.Alloc); ok {
-						if pt, ok := al.Type().(*types.Pointer); ok && types.Identical(pt.Elem(), m.a.cursorT) {
+						if pt, ok := al.Type().(*types.Pointer); ok && m.a.isCursorT(pt.Elem()) {
 							m.entry = f
 						}
 					}
@@ -325,7 +327,7 @@ func (m *idlModel) accMethod(c *ssa.Call) string {
 		return ""
 	}
 	pt, ok := fa.X.Type().Underlying().(*types.Pointer)
-	if !ok || !types.Identical(pt.Elem(), m.a.cursorT) {
+	if !ok || !m.a.isCursorT(pt.Elem()) {
 		return ""
 	}
 	return f.Name()
